@@ -82,29 +82,8 @@ func (c *Ctx) checkNondetCalls() {
 					}
 				}
 			}
-			// through a private helper of the package whose every result is the seed variable
-			if call, isCall := cc.Args[0].(*ssa.Call); isCall && !okArg {
-				if g := call.Common().StaticCallee(); g != nil && g.Pkg == s.fn.Pkg && !token.IsExported(g.Name()) && len(g.Blocks) > 0 && g.Signature.Results().Len() == 1 {
-					all, n := true, 0
-					allInstrs(g, func(in ssa.Instruction) {
-						ret, ok := in.(*ssa.Return)
-						if !ok {
-							return
-						}
-						for _, lf := range phiLeaves(ret.Results[0]) {
-							n++
-							u, ok := lf.(*ssa.UnOp)
-							if !ok || u.Op != token.MUL {
-								all = false
-								continue
-							}
-							if gl, ok := u.X.(*ssa.Global); !ok || gl.Name() != "seed" {
-								all = false
-							}
-						}
-					})
-					okArg = all && n > 0
-				}
+			if !okArg {
+				okArg = seedThroughHelper(cc.Args[0], s.fn)
 			}
 			L.Check(okArg && nSeed == 1, "nondet-source", name, "rand.Seed", pos, "single seeding site, argument is the --seed variable",
 				fmt.Sprintf("rand.Seed site #%d (argument is the seed variable: %v); the stream must be seeded exactly once from --seed", nSeed, okArg))
@@ -195,4 +174,40 @@ func (c *Ctx) isDefaultSeedOnly(s callSiteRef) (bool, string) {
 		}
 	}
 	return true, "executes only when seed == -1 and its value only reaches the seed variable"
+}
+
+// seedThroughHelper: v is the result of a private helper of fn's package whose every returned value
+// is a load of the seed variable.
+func seedThroughHelper(v ssa.Value, fn *ssa.Function) bool {
+	call, isCall := v.(*ssa.Call)
+	if !isCall {
+		return false
+	}
+	g := call.Common().StaticCallee()
+	pk := fn.Pkg
+	if pk == nil && fn.Parent() != nil {
+		pk = fn.Parent().Pkg
+	}
+	if g == nil || g.Pkg != pk || token.IsExported(g.Name()) || len(g.Blocks) == 0 || g.Signature.Results().Len() != 1 {
+		return false
+	}
+	all, n := true, 0
+	allInstrs(g, func(in ssa.Instruction) {
+		ret, ok := in.(*ssa.Return)
+		if !ok {
+			return
+		}
+		for _, lf := range phiLeaves(ret.Results[0]) {
+			n++
+			u, ok := lf.(*ssa.UnOp)
+			if !ok || u.Op != token.MUL {
+				all = false
+				continue
+			}
+			if gl, ok := u.X.(*ssa.Global); !ok || gl.Name() != "seed" {
+				all = false
+			}
+		}
+	})
+	return all && n > 0
 }
